@@ -146,6 +146,44 @@ def real_functions():
         b = R.uniform(0.01, 50); e = R.uniform(-6, 6); assert pow(b, e) > 0 and b ** e == pow(b, e); n += 1
     return n
 
+@test("C07")
+def valid_splits_definition():
+    """the recursion equations that DEFINE valid_splits (contracts/split_gen.py) enumerate exactly the admissible vectors, each once"""
+    def vt(r, t):
+        if t == 1: return [[r]]
+        return [row + [i] for i in range(0, r // t + 1) for row in vt(r - i * t, t - 1)]
+    n = 0
+    for t in range(1, 5):
+        for r in range(0, 13):
+            got = [tuple(x) for x in vt(r, t)]
+            want = [d for d in itertools.product(*[range(0, r // (c + 1) + 1) for c in range(t)]) if sum((c + 1) * d[c] for c in range(t)) == r]
+            assert sorted(got) == sorted(want) and len(set(got)) == len(got); n += 1
+    return n
+@test("C01", "C03")
+def partition_helper_arithmetic():
+    """range(0, L, s) has ceil(L/s) elements q*s; int((0.0 + L) / s) == L // s when s divides L (the handshake precondition of the custom generator)"""
+    n = 0
+    for L in range(0, 40):
+        for s_ in range(1, 7):
+            rg = list(range(0, L, s_)); assert len(rg) == -(-L // s_) and all(rg[q] == q * s_ for q in range(len(rg)))
+            if L % s_ == 0: assert int((0.0 + L) / s_) == L // s_ == len(rg)
+            xs = list(range(100, 100 + L)); assert [xs[i:i + s_] for i in rg] == [xs[q * s_:q * s_ + s_] for q in range(len(rg))]; n += 1
+    return n
+@test("C17")
+def set_iteration_visits_each_member_once():
+    n = 0
+    for _ in range(300):
+        a = [R.randint(0, 9) for _ in range(R.randint(0, 8))]; b = [R.randint(0, 9) for _ in range(R.randint(0, 5))]
+        d = set(a) - set(b); seen = list(d); assert len(seen) == len(set(seen)) and set(seen) == {x for x in a if x not in b}; n += 1
+    return n
+@test("C06")
+def column_stack_transposes():
+    import numpy as np
+    n = 0
+    for _ in range(200):
+        D = R.randint(1, 4); m = R.randint(0, 6); cols = [[R.randint(0, 9) for _ in range(m)] for _ in range(D)]
+        rows = [tuple(jd) for jd in np.column_stack(cols).tolist()]; assert len(rows) == m and all(rows[q] == tuple(cols[i][q] for i in range(D)) for q in range(m)); n += 1
+    return n
 def main():
     tags = set(sys.argv[1:]); out = {}; bad = []
     for name, tg, f in TESTS:
